@@ -62,9 +62,11 @@ theorem Cm_congr (s s' : App) (c : CSet) (k : Cm s c) (hv : s'.vals = s.vals) (h
 /-- **the EndBlocker takes `M2` to `G2`** -/
 theorem endBlock_G2 (s : App) (c : CSet) (m : M2 s c) (f : Fits2 s c) :
     ∃ ups s' c', s.stakingEndBlock = .ok (ups, s') ∧ Comet.applyChangeSet c ups = .ok c' ∧ Agree c' s' ∧ G2 s' c' ∧
-      s'.updated = s.updated ∧ s'.params = s.params ∧ s'.height = s.height ∧ s'.time = s.time := by
-  obtain ⟨ups, s', c', he, hc, hag, m', hng, _, r2, r3, r4, r5, _, hT0, hT1⟩ := stakingEndBlock_St s c m.st m.cm f
-  refine ⟨ups, s', c', he, hc, hag, ?_, r2, r3, r4, r5⟩
+      s'.updated = s.updated ∧ s'.params = s.params ∧ s'.height = s.height ∧ s'.time = s.time ∧
+      (∀ o w, s'.getVal o = some w → ∃ v0, s.getVal o = some v0 ∧ (w = v0 ∨ (Gone v0 ∧ Unb w ∧ w.key = v0.key))) ∧
+      (∀ o v0, s.getVal o = some v0 → Active v0 → s'.getVal o = some v0) := by
+  obtain ⟨ups, s', c', he, hc, hag, m', hng, _, r2, r3, r4, r5, _, hT0, hT1, hrec, hkeep⟩ := stakingEndBlock_St s c m.st m.cm f
+  refine ⟨ups, s', c', he, hc, hag, ?_, r2, r3, r4, r5, hrec, hkeep⟩
   have hc'eq := applyChangeSet_ok c c' ups hc
   have hcs : KSorted c' := by rw [hc'eq]; exact ksorted_foldl ups c m.cm.cSorted
   have hallCur : ∀ v ∈ s'.vals, Active v → alookup v.key c' = some (cur v) := by
